@@ -33,10 +33,15 @@
 #define MODEFLAG "-e"
 #endif
 #define OUT_MAX (IN_LEN + 160)
+#if KIND == 3
+#define IN_CAP (IN_LEN + 160)      /* the encrypted file is fed back as input */
+#else
+#define IN_CAP IN_LEN
+#endif
 
 /* ---------------- environment ---------------- */
-static unsigned char in_data[IN_LEN + 1], out_data[OUT_MAX + 1];
-static size_t in_pos = 0, out_len = 0;
+static unsigned char in_data[IN_CAP + 1], out_data[OUT_MAX + 1];
+static size_t in_pos = 0, out_len = 0, in_len = IN_LEN;
 static int unlinked = 0, opened_out = 0, hard_read_error = 0, hard_write_error = 0, short_write = 0;
 /* fault schedule, concrete per query: the FAULT_AT-th call of operation FAULT_OP misbehaves as FAULT_KIND
  *   FAULT_OP   0 none  1 read  2 write  3 random source  4 open(input)  5 open(output)
@@ -62,7 +67,7 @@ int close(int fd) { (void)fd; return 0; }
 int unlink(const char *path) { (void)path; unlinked = 1; return 0; }
 long read(int fd, void *buf, unsigned long len)
 {
-    unsigned long avail = IN_LEN - in_pos, n;
+    unsigned long avail = in_len - in_pos, n;
     unsigned k = rd_calls++;
     (void)fd;
     n = len < avail ? len : avail;
@@ -201,14 +206,22 @@ void harness(void)
 #elif KIND == 3
     {
         static unsigned char plain[IN_LEN + 1];
-        size_t enc_len;
+        int ok = 1;
         for (i = 0; i < IN_LEN; ++i) { plain[i] = nondet_uchar(); in_data[i] = plain[i]; }
         for (i = 0; i < 8; ++i) full_password[i] = (char)nondet_uchar();
         full_password[8] = 0;
         rc = encrypt_file("in", "out");
         CHECK(rc == 1 && !unlinked && out_len == IN_LEN + 96, "encryption succeeds and writes header + SIV block + data + tag");
-        /* feed the encrypted file back: the model's input array is re-used through a second harness build (RT_STAGE) */
-        (void)enc_len; (void)plain;
+        if (rc == 1 && out_len == IN_LEN + 96) {
+            /* feed the encrypted file back */
+            for (i = 0; i < IN_LEN + 96; ++i) in_data[i] = out_data[i];
+            in_len = IN_LEN + 96; in_pos = 0; opened_out = 0;
+            rc = decrypt_file("out", "back");
+            CHECK(rc == 1 && !unlinked, "decrypting what was just encrypted, with the same password, succeeds");
+            CHECK(out_len == IN_LEN, "the decrypted file has the original length");
+            if (out_len == IN_LEN) for (i = 0; i < IN_LEN; ++i) ok &= (out_data[i] == plain[i]);
+            CHECK(ok, "the decrypted file is identical to the original");
+        }
     }
 #elif KIND == 4
     {
